@@ -298,3 +298,16 @@ Example seq_ex : gen_seq 2147483647 (-2) 4 = ([-1; 1; 2; 3], 3).
 Proof. vm_compute. reflexivity. Qed.
 Example seq_ex_wrap : gen_seq 2147483647 2147483646 3 = ([2147483647; 2; 3], 3).
 Proof. vm_compute. reflexivity. Qed.
+
+(* the forward-only check accepts what the machine does and rejects a counter that was moved back *)
+Example ctrs_fwd_ex : ctrs_fwd 2147483647 [5; 5; 9; 700; 701] = true /\ ctrs_fwd 2147483647 [2147483640; 2147483646; 2147483647; 1; 2; 7] = true.
+Proof. vm_compute. split; reflexivity. Qed.
+Example ctrs_fwd_wrap_negative : ctrs_fwd 2147483647 [2147483646; -2147483648; -2147483640] = true /\ ctrs_fwd 2147483647 [-3; 0; 1; 4] = true.
+Proof. vm_compute. split; reflexivity. Qed.
+Example ctrs_fwd_rejects_decrement : ctrs_fwd 2147483647 [5; 9; 8; 9] = false.
+Proof. vm_compute. reflexivity. Qed.
+
+(* soundness of the check for readings taken at Adds: a value the machine hands out after counter c0 within n Adds has
+   [rem c0 x <= n] (mt_check_sound) — a value behind c0 would need about 2^32 Adds *)
+Example rem_backwards : rem 2147483647 9 8 = 2147483647 - 9 + 8 - 1.
+Proof. vm_compute. reflexivity. Qed.
